@@ -115,6 +115,14 @@ def raw_size(o):
     return {"uint8_t": 1, "int8_t": 1, "uint16_t": 2, "int16_t": 2, "uint32_t": 4, "int32_t": 4, "uint64_t": 8, "int64_t": 8}[o.raw_type]
 
 
+def has_var(e, name):
+    if not isinstance(e, gen.N):
+        return False
+    if e.kind in ("var", "len", "idx") and getattr(e, "name", None) == name:
+        return True
+    return any(has_var(getattr(e, f, None), name) for f in ("a", "b", "e"))
+
+
 def has_last(e):
     if not isinstance(e, gen.N):
         return False
@@ -124,12 +132,14 @@ def has_last(e):
 
 
 class RI:
-    def __init__(self, prog, inp, with_end=False, decisions=(), reread=False, stale_last=False):
+    def __init__(self, prog, inp, with_end=False, decisions=(), alt=()):
         self.prog = prog
-        self.reread = reread               # alternate world used only to classify known finding K6 (see check())
+        # alternate worlds, used only to classify a violation as a known finding (see check()):
+        self.reread = "reread" in alt               # K6: handler re-reads the last consumed byte after an eager char-append overflow
         self.rewound = False
-        self.stale_last = stale_last       # alternate world for known finding K7: $last after a yield is the next byte
+        self.stale_last = "stale_last" in alt       # K7: $last behind a yield is the next byte
         self.yield_pos = -1
+        self.greedy_eager = "greedy_eager" in alt   # K9: leading non-strict actions of a greedy clause run when its pattern completes
         self.inp = list(inp) + ([END] if with_end else [])
         self.ndata = len(inp)
         self.with_end = with_end
@@ -465,6 +475,16 @@ class RI:
         while True:
             done_now = [x for x in alive if rx.nullable(x[1])]
             cont = [x for x in alive if not rx.only_eps(x[1])]
+            if self.greedy_eager and s.greedy and done_now and cont:
+                best = max(x[2] for x in done_now)
+                ci = min(x[0] for x in done_now if x[2] == best)
+                # (only clauses made of plain actions: with a yield or a match in the body nmfu chains the actions lazily)
+                plain = all(a.kind in ("assign", "assignstr", "delete", "hook", "appendc", "break", "finish") for a in s.clauses[ci].body)
+                for a in (s.clauses[ci].body if plain else []):
+                    if a.kind not in ("assign", "assignstr", "delete") or (a.kind == "assign" and has_var(a.e, a.var)):
+                        break
+                    self.stmt(a, loops)
+                    self.flags.add("greedy-eager-applied")
             if done_now and not cont:
                 chosen = self.pick(s, done_now)
                 break
@@ -631,20 +651,20 @@ def check(prog_ast, inp, items, prog_c, stats, with_end=False, max_runs=40, poin
         return v
     # classification only: does the known mechanism K6 (a char-append that overflows on the transition that consumed the previous
     # byte hands that byte to the out-of-space handler a second time) explain the whole trace?
-    alt = _search(prog_ast, inp, items, prog_c, {}, with_end, max_runs, pointers, "reread")
-    if alt == "explained":
-        stats["explained_by_reread"] = stats.get("explained_by_reread", 0) + 1
-        return ("handler-rereads-byte[eager-append-overflow]", "explained by the handler re-reading the last consumed byte; primary symptom: %s: %s" % v)
-    # K7: $last read by an action that follows a yield (no byte consumed in between) evaluates to the next input byte
-    alt = _search(prog_ast, inp, items, prog_c, {}, with_end, max_runs, pointers, "stale_last")
-    if alt == "explained":
-        stats["explained_by_stale_last"] = stats.get("explained_by_stale_last", 0) + 1
-        return ("last-after-yield-is-next-byte", "explained by $last evaluating to the byte that follows the yield; primary symptom: %s: %s" % v)
-    alt = _search(prog_ast, inp, items, prog_c, {}, with_end, max_runs, pointers, "both")
-    if alt == "explained":
-        stats["explained_by_stale_last_and_reread"] = stats.get("explained_by_stale_last_and_reread", 0) + 1
-        return ("last-after-yield-is-next-byte", "explained by K7 ($last behind a yield is the next byte) together with K6 (handler re-reads the last consumed byte); primary symptom: %s: %s" % v)
+    for worlds, key, text in ALT_WORLDS:
+        if _search(prog_ast, inp, items, prog_c, {}, with_end, max_runs, pointers, worlds) == "explained":
+            stats["explained_by_" + "+".join(worlds)] = stats.get("explained_by_" + "+".join(worlds), 0) + 1
+            return (key, "explained by %s; primary symptom: %s: %s" % (text, v[0], v[1]))
     return v
+
+
+ALT_WORLDS = [
+    (("reread",), "handler-rereads-byte[eager-append-overflow]", "K6 (the out-of-space handler re-reads the last consumed byte)"),
+    (("stale_last",), "last-after-yield-is-next-byte", "K7 ($last behind a yield evaluates to the byte that follows)"),
+    (("reread", "stale_last"), "last-after-yield-is-next-byte", "K7 together with K6"),
+    (("greedy_eager",), "losing-greedy-clause-actions-applied", "K9 (leading non-strict actions of a greedy clause run as soon as its pattern completes, also when a longer clause wins)"),
+]
+NEED_FLAGS = {"reread": "reread-handled", "stale_last": "stale-last-applied", "greedy_eager": "greedy-eager-applied"}
 
 
 def _search(prog_ast, inp, items, prog_c, stats, with_end, max_runs, pointers, reread):
@@ -659,7 +679,7 @@ def _search(prog_ast, inp, items, prog_c, stats, with_end, max_runs, pointers, r
         seen.add(dec)
         tried += 1
         try:
-            r = RI(prog_ast, inp, with_end=with_end, decisions=dec, reread=reread in ("reread", "both"), stale_last=reread in ("stale_last", "both")).run()
+            r = RI(prog_ast, inp, with_end=with_end, decisions=dec, alt=reread or ()).run()
         except Unknown as u:
             return ("unknown", str(u))
         except RecursionError:
@@ -667,8 +687,7 @@ def _search(prog_ast, inp, items, prog_c, stats, with_end, max_runs, pointers, r
         v = match_trace(r, items, prog_c, len(inp), stats, pointers=pointers)
         if reread:
             if v is None:
-                need = {"reread": {"reread-handled"}, "stale_last": {"stale-last-applied"}, "both": {"reread-handled", "stale-last-applied"}}[reread]
-                return "explained" if need <= r.flags else "not-explained"
+                return "explained" if {NEED_FLAGS[w] for w in reread} <= r.flags else "not-explained"
         elif v is None:
             if dec:
                 stats["needed_drop_rule"] = stats.get("needed_drop_rule", 0) + 1
